@@ -1,11 +1,12 @@
 import PlasVerif.Proofs.IndexMergeSorted
 import PlasVerif.Proofs.IndexColumns
 import PlasVerif.Proofs.IndexParse
+import PlasVerif.Proofs.IndexRender
 /-!
 # C18 — The index lists every entry exactly once, under its key, in collation order
 
 Property theorems only; helper lemmas and the auxiliary vocabulary (`pathLt`, `paths`, `pagesOf`,
-`AdjNe`, `StrictTotal`) are in `Proofs/Index*.lean`.  Every theorem holds for every collator `env.coll`,
+`GInv`, `StrictTotal`) are in `Proofs/Index*.lean`.  Every theorem holds for every collator `env.coll`,
 every `env.ini`, every list of entries and every column count (no bound on sizes).
 -/
 namespace PlasVerif.Properties.C18
@@ -154,18 +155,36 @@ theorem asIs_counterexample :
 
 /-! ## letter groups and columns -/
 
-/-- `groups` batches the top-level entries in order: concatenating the groups gives back the entries, no group is
-    empty, every entry sits under the heading of its own initial, adjacent headings differ.  (Hypothesis: no entry
-    has the empty heading, i.e. `unidecode` does not map the first character of its sort key to `''`.) -/
-theorem groups_partition_by_initial {α : Type} (tl : α → Str × Str) (items : List α) (h : ∀ x ∈ items, (tl x).2 ≠ []) :
-    ∃ gs, groupItems tl items = .ok gs ∧ gs.flatMap (·.items) = items ∧
-      (∀ g ∈ gs, g.items ≠ [] ∧ ∀ x ∈ g.items, (tl x).2 = g.title) ∧ AdjNe gs := by
+/-- `groups` files the top-level entries under headings: every heading occurs once, no group is empty, a group
+    holds exactly the entries of its heading in their sorted order, every entry has its group (so the groups are a
+    partition of the entries — a permutation of them that only moves whole headings together), and the groups
+    stand in the order of their first entries.  (Hypothesis: the *first* entry does not have the empty heading,
+    i.e. `unidecode` does not map the first character of its sort key to `''`.) -/
+theorem groups_partition_by_initial {α : Type} (tl : α → Str × Str) (items : List α)
+    (h : ∀ x, items.head? = some x → (tl x).2 ≠ []) :
+    ∃ gs, groupItems tl items = .ok gs ∧
+      (gs.map (·.title)).Nodup ∧
+      (∀ g ∈ gs, g.items ≠ [] ∧ g.items = items.filter (fun x => (tl x).2 = g.title)) ∧
+      (∀ x ∈ items, ∃ g ∈ gs, g.title = (tl x).2) ∧
+      (gs.flatMap (·.items)).Perm items ∧
+      (gs.filterMap (·.items.head?)).Sublist items := by
   cases items with
-  | nil => exact ⟨[], rfl, rfl, by simp, trivial⟩
+  | nil => exact ⟨[], rfl, by simp, by simp, by simp, by simp, by simp⟩
   | cons x xs =>
-    refine ⟨_, groupItems_cons tl x xs (h x (by simp)), ?_, ?_, extend_adj tl xs _⟩
-    · simpa using extend_flat tl xs { title := (tl x).2, label := (tl x).1, items := [x] }
-    · exact extend_titled tl xs _ ⟨by simp, by simp⟩
+    have inv := foldl_addItem_inv tl (x :: xs) [] [] (GInv_nil tl)
+    rw [List.nil_append] at inv
+    exact ⟨_, groupItems_cons tl x xs (h x rfl), inv.nodup,
+      fun g hg => ⟨(inv.items g hg).2, (inv.items g hg).1⟩, inv.covered, inv.perm, inv.heads⟩
+
+/-- The code before the repair of duplicate headings: entries `e…`, `z…`, `é…` (headings `E`, `Z`, `E`; without a
+    collator the accented key sorts last) gave two groups headed `E` — kernel-checked witness; after the repair
+    the third entry joins the first group. -/
+theorem asIs_groups_counterexample :
+    (match groupsGoAsIs (fun n : Nat => (([n], [n]) : Str × Str)) [69, 90, 69] [] [] with
+      | .ok gs => gs.map (·.title) | .error _ => []) = [[69], [90], [69]] ∧
+    (match groupItems (fun n : Nat => (([n], [n]) : Str × Str)) [69, 90, 69] with
+      | .ok gs => gs.map (fun g => (g.title, g.items)) | .error _ => []) = [([69], [69, 69]), ([90], [90])] := by
+  decide
 
 /-- the heading of an entry: its initial when that is a (run of) letter(s), otherwise one of the two symbol headings -/
 theorem heading_cases (env : Env) (sk : Str) :
@@ -182,9 +201,9 @@ theorem heading_cases (env : Env) (sk : Str) :
       · subst h2; right; left; simp [h1]
       · right; right; simp [h1, h2]
 
-/-- the first entry having the empty heading makes `groups` raise `IndexError` (`batches[-1]` on an empty list) -/
+/-- the first entry having the empty heading makes `groups` raise `KeyError` (`bytitle['']` does not exist yet) -/
 theorem groups_empty_heading_raises {α : Type} (tl : α → Str × Str) (x : α) (xs : List α) (h : (tl x).2 = []) :
-    groupItems tl (x :: xs) = .error .indexError := groupItems_empty_title tl x xs h
+    groupItems tl (x :: xs) = .error .keyError := groupItems_empty_title tl x xs h
 
 /-- The column split of any item list, for every weight function and every `cols ≥ 1`: concatenating the columns
     gives back the items (nothing lost, duplicated or reordered), there are exactly `cols` columns, and the
@@ -197,23 +216,85 @@ theorem columns_partition_in_order {α : Type} (w : α → Nat) (items : List α
 /-- non-vacuity: weights 1 2 3 1 1 into 3 columns -/
 example : splitColumns (fun i : Nat => [1, 2, 3, 1, 1].getD i 0) [0, 1, 2, 3, 4] 3 = [[0, 1, 2], [3, 4], []] := by decide
 
-/-- `IndexUtils.groups` on the index: groups by heading, each group split into exactly `cols` columns, and reading
-    groups and columns in order gives back the top-level entries in their order. -/
+/-- `IndexUtils.groups` on the index: one group per heading, each split into exactly `cols` columns; reading the
+    columns of a group in order gives exactly the top-level entries of that heading in their sorted order, and all
+    groups together hold every top-level entry exactly once. -/
 theorem index_groups_and_columns (env : Env) (lines : List Line) (cols : Nat) (hc : 1 ≤ cols)
-    (h : ∀ it ∈ topItems lines, (titleOf env (lineSk it.1)).2 ≠ []) :
-    ∃ gs, groups env lines cols = .ok gs ∧ gs.flatMap (fun g => g.items.flatten) = topItems lines ∧
+    (h : ∀ it, (topItems lines).head? = some it → (titleOf env (lineSk it.1)).2 ≠ []) :
+    ∃ gs, groups env lines cols = .ok gs ∧ (gs.map (·.title)).Nodup ∧
+      (gs.flatMap (fun g => g.items.flatten)).Perm (topItems lines) ∧
       ∀ g ∈ gs, g.items.length = cols ∧ g.items.flatten ≠ [] ∧
-        ∀ it ∈ g.items.flatten, (titleOf env (lineSk it.1)).2 = g.title := by
-  obtain ⟨gs, h1, h2, h3, _⟩ := groups_partition_by_initial (fun it : Line × Nat => titleOf env (lineSk it.1)) (topItems lines) h
-  refine ⟨gs.map fun g => { title := g.title, label := g.label, items := splitColumns (·.2) g.items cols }, ?_, ?_, ?_⟩
+        g.items.flatten = (topItems lines).filter (fun it => (titleOf env (lineSk it.1)).2 = g.title) := by
+  obtain ⟨gs, h1, h2, h3, _, h5, _⟩ :=
+    groups_partition_by_initial (fun it : Line × Nat => titleOf env (lineSk it.1)) (topItems lines) h
+  refine ⟨gs.map fun g => { title := g.title, label := g.label, items := splitColumns (·.2) g.items cols }, ?_, ?_, ?_, ?_⟩
   · have hc0 : ¬ cols = 0 := by omega
     simp [groups, h1, hc0]
+  · simpa [List.map_map, Function.comp_def] using h2
   · rw [List.flatMap_map]
-    simpa [splitColumns_flatten] using h2
+    simpa [splitColumns_flatten] using h5
   · intro g hg
     obtain ⟨g0, hg0, e⟩ := List.mem_map.mp hg
     subst e
     simp only [splitColumns_flatten]
     exact ⟨splitColumns_length _ _ _ hc, (h3 g0 hg0).1, (h3 g0 hg0).2⟩
+
+/-! ## the generated index (HTML5 template walk) -/
+
+/-- The template's walk — headings, their columns, each item followed by its whole sub-tree (`loop(item)` at every
+    depth) — lists every line of the index tree exactly once, under `cols` columns per heading: the `<li>` sequence
+    is a permutation of the node list (from its first top-level node on) that keeps every top-level entry together
+    with its sub-tree and only moves entries of one heading together (`blocks` below: per heading, the sub-trees of
+    that heading's entries in their sorted order). -/
+theorem generated_index_lists_every_line (env : Env) (lines : List Line) (cols : Nat) (hc : 1 ≤ cols)
+    (hd : ∀ l ∈ lines, 1 ≤ l.path.length)
+    (ht : ∀ b, (topBlocks lines).head? = some b → (titleOf env (lineSk b.1)).2 ≠ []) :
+    ∃ r, renderIndex env lines cols = .ok r ∧
+      (htmlLines r).Perm (lines.dropWhile (fun x => decide (x.path.length > 1))) ∧
+      (r.map (·.1)).Nodup ∧
+      ∀ g ∈ r, g.2.length = cols ∧
+        g.2.flatten = (topBlocks lines).filter (fun b => (titleOf env (lineSk b.1)).2 = g.1) := by
+  obtain ⟨gs, h1, h2, h3, _, h5, _⟩ :=
+    groups_partition_by_initial (fun b : Line × List Line => titleOf env (lineSk b.1)) (topBlocks lines) ht
+  refine ⟨gs.map fun g => (g.title, splitColumns (fun b : Line × List Line => 1 + b.2.length) g.items cols), ?_, ?_, ?_, ?_⟩
+  · have hc0 : ¬ cols = 0 := by omega
+    simp [renderIndex, h1, hc0]
+  · have : htmlLines (gs.map fun g => (g.title, splitColumns (fun b : Line × List Line => 1 + b.2.length) g.items cols))
+        = (gs.flatMap (·.items)).flatMap (fun b => b.1 :: b.2) := by
+      simp [htmlLines, List.flatMap_map, splitColumns_flatten, List.flatMap_assoc]
+    rw [this, ← topBlocks_flat lines hd]
+    exact h5.flatMap_right _
+  · simpa [List.map_map, Function.comp_def] using h2
+  · intro g hg
+    obtain ⟨g0, hg0, e⟩ := List.mem_map.mp hg
+    subst e
+    simp only [splitColumns_flatten]
+    exact ⟨splitColumns_length _ _ _ hc, (h3 g0 hg0).2⟩
+
+/-- For the index built from any entry list: the generated index shows exactly the lines of the index tree
+    (all levels, nothing dropped or duplicated; entries of one heading brought together). -/
+theorem generated_index_is_the_index_tree (env : Env) (es : List Entry) (cols : Nat) (hc : 1 ≤ cols)
+    (hne : ∀ e ∈ es, e.path ≠ [])
+    (ht : ∀ b, (topBlocks (buildIndex env es)).head? = some b → (titleOf env (lineSk b.1)).2 ≠ []) :
+    ∃ r, renderIndex env (buildIndex env es) cols = .ok r ∧ (htmlLines r).Perm (buildIndex env es) := by
+  have hp : (sortEntries env es).Perm es := isort_perm es
+  have hs : ∀ e ∈ sortEntries env es, e.path ≠ [] := fun e he => hne e (hp.mem_iff.mp he)
+  have hd : ∀ l ∈ buildIndex env es, 1 ≤ l.path.length := by
+    intro l hl
+    have := run'_paths_nonempty (sortEntries env es) [] [] (by simp [paths]) l.path
+      (by rw [← mergeLines_eq]; exact List.mem_map.mpr ⟨l, hl, rfl⟩)
+    cases hq : l.path with
+    | nil => exact absurd hq this
+    | cons a r => simp
+  obtain ⟨r, h1, h2, _⟩ := generated_index_lists_every_line env (buildIndex env es) cols hc hd ht
+  refine ⟨r, h1, ?_⟩
+  have := mergeLines_head_top (sortEntries env es) hs
+  rw [buildIndex, ← this]
+  exact h2
+
+/-- non-vacuity: a three-level entry is rendered at depth three -/
+example : (match renderIndex envL (buildIndex envL [⟨[lv 97, lv 98, lv 99], 0⟩, ⟨[lv 97], 1⟩]) 2 with
+      | .ok r => htmlLines r | .error _ => []) =
+    [⟨[lv 97], [1]⟩, ⟨[lv 97, lv 98], []⟩, ⟨[lv 97, lv 98, lv 99], [0]⟩] := by decide
 
 end PlasVerif.Properties.C18
